@@ -97,6 +97,9 @@ def _gen_member(rng, name, kind, side, level, cfg, like=None):
         m = {"k": "func", "name": name, "params": _gen_params(rng, level > 0 and deco != "staticmethod", like["params"] if like and like["k"] == "func" else None), "ret": rng.choice(pysrc.ANNS) if rng.random() < 0.6 else None, "doc": _gen_doc(rng, tag)}
         if deco:
             m["deco"] = deco
+        if side == "rt" and not deco and rng.random() < cfg.get("p_rt_overloads", 0.0):
+            # the runtime module declares @overload signatures of its own (typed code bases do): the stubs' list replaces them
+            m["rt_overloads"] = [{"params": _gen_params(rng, level > 0, m["params"]), "ret": rng.choice(pysrc.ANNS)} for _ in range(rng.choice([1, 2]))]
         return m
     if kind == "attr":
         ann = rng.choice(pysrc.ANNS[:-1]) if rng.random() < (0.85 if side == "st" else 0.5) else None
@@ -189,6 +192,7 @@ def generate(rng, opts):
         "p_guard": rng.choice([0.0, 0.0, 0.2]),
         # a wildcard import that only the stubs have (lazy `__getattr__` packages whose __init__.pyi re-exports with a star)
         "p_star_st": rng.choice([0.0, 0.0, 0.35]),
+        "p_rt_overloads": rng.choice([0.0, 0.0, 0.3]),
     }
     if opts.get("no_known"):
         cfg["p_overload_impl"] = 0.0
@@ -387,7 +391,8 @@ def exp_alone(m, side):
     k = m["k"]
     rt = (not m.get("guard")) if side == "rt" else ANY
     if k == "func":
-        return {"kind": "function", "doc": _doc(m["doc"]), **_sig(m["params"], m["ret"]), "overloads": None, "runtime": rt}
+        own = [_sig(x["params"], x["ret"]) for x in m.get("rt_overloads", [])] or None
+        return {"kind": "function", "doc": _doc(m["doc"]), **_sig(m["params"], m["ret"]), "overloads": own, "runtime": rt}
     if k == "attr":
         return {"kind": "attribute", "doc": _doc(m["doc"]), "ann": m["ann"], "runtime": rt}
     if k == "class":
@@ -504,6 +509,8 @@ def exp_world(world):
             node = {"kind": "module", "doc": _doc(st["doc"]), "members": exp_container([], st["members"], nested_stub_only=True), "runtime": False if world["placement"] == "stubs_pkg" or world.get("single_stubs_pkg") else ANY}
         if rt is not None and any(m.get("guard") for m in _all_members(rt["members"])):
             node["members"].setdefault("TYPE_CHECKING", {"kind": "alias", "target": "typing.TYPE_CHECKING", "runtime": ANY})
+        if rt is not None and any(m.get("rt_overloads") for m in _all_members(rt["members"])):
+            node["members"].setdefault("overload", {"kind": "alias", "target": "typing.overload", "runtime": ANY})
         if st is not None and any(m["k"] == "overloads" for m in _all_members(st["members"])):
             # the rendered stub file starts with `from typing import overload`
             node["members"].setdefault("overload", {"kind": "alias", "target": "typing.overload", "runtime": ANY})
@@ -521,6 +528,8 @@ def exp_world(world):
             rt_side, st_side = mods[f"{mp}.{rex['private']}"]["rt"], mods[f"{mp}.{rex['public']}"]["st"]
             if rt_side is not None and st_side is not None:
                 node["members"][rex["private"]] = {"kind": "module", "doc": _merge_doc(rt_side["doc"], st_side["doc"]), "members": exp_container(rt_side["members"], st_side["members"]), "runtime": True}
+                if any(m.get("rt_overloads") for m in _all_members(rt_side["members"])):
+                    node["members"][rex["private"]]["members"].setdefault("overload", {"kind": "alias", "target": "typing.overload", "runtime": ANY})
         return node
 
     return build(world["top"])
@@ -1097,7 +1106,7 @@ class _Prop:
         "(sorted, reversed, hashed permutation of every directory listing) x {x.py before x.pyi, x.pyi before x.py}; "
         "each load is compared with a reference merge model and monitored for alias resolution inside merger.py, "
         "and the two pair orders of one base order must give the same normalised tree. Non-trivial = at least one directory listing had a choice of order; distinct = "
-        "distinct (placement, merged-tree hash, number of schedules), counted with a set of 64-bit hashes. Also drawn: decorators, class bases, properties with setters/deleters, shuffled stub parameter order, wildcard re-exports (`from pkg._impl import *`) in runtime modules, find_stubs_package independent of the placement, either order of the two search paths; every load is additionally compared with a stubs-free load of the same world (no runtime fact may change) and checked for parent/container consistency. Round s: the implementation module as a private sibling package held by the collection before the load. Round r: wildcard imports that only the stubs have. Round j/k: members under `if TYPE_CHECKING:`; runtime modules that exist only in compiled form (.so/.pyd/.pyc next to their stubs, analysed through a stand-in inspector); stubs declared at the public location of a class the runtime re-exports (its stub-only members must reach the class)."
+        "distinct (placement, merged-tree hash, number of schedules), counted with a set of 64-bit hashes. Also drawn: decorators, class bases, properties with setters/deleters, shuffled stub parameter order, wildcard re-exports (`from pkg._impl import *`) in runtime modules, find_stubs_package independent of the placement, either order of the two search paths; every load is additionally compared with a stubs-free load of the same world (no runtime fact may change) and checked for parent/container consistency. Round t/u: parameter name pools (dunder / underscore / non-ASCII), runtime functions with @overload signatures of their own, byte order marks. Round s: the implementation module as a private sibling package held by the collection before the load. Round r: wildcard imports that only the stubs have. Round j/k: members under `if TYPE_CHECKING:`; runtime modules that exist only in compiled form (.so/.pyd/.pyc next to their stubs, analysed through a stand-in inspector); stubs declared at the public location of a class the runtime re-exports (its stub-only members must reach the class)."
     )
     COMPONENTS = {
         "real": ["_griffe.loader", "_griffe.finder", "_griffe.agents.visitor", "_griffe.merger", "_griffe.mixins.set_member", "_griffe.models", "real files on tmpfs"],
